@@ -195,6 +195,24 @@ Section RT.
         (fix items (l : list cfg) : bool := match l with [] => false | it :: r => cfg_dis fs it || items r end) l
     | _, _ => false
     end.
+  (* ---- dynamic fields (AnyField registered on the configuration, values stored and rendered raw) hold plain data,
+     at every depth ---- *)
+  Fixpoint dyn_plain (nd : node) (v : val) {struct nd} : bool :=
+    let cfg_ok := fun (fs : list (str * node)) (c : cfg) =>
+      forallb (fun k => match dget k (c_data c) with Some (VLeaf x) => plain_data x | _ => true end) (c_dyn c)
+      && (fix go (fs' : list (str * node)) : bool :=
+            match fs' with
+            | [] => true
+            | (k, nd') :: r => match dget k (c_data c) with Some v' => dyn_plain nd' v' | None => true end && go r
+            end) fs in
+    match nd, v with
+    | NSub _ _ fs, VCfg c => cfg_ok fs c
+    | NCfgList _ _ fs, VList l =>
+        (fix items (l : list cfg) : bool := match l with [] => true | it :: r => cfg_ok fs it && items r end) l
+    | _, _ => true
+    end.
+  Definition dynamic_plain (fs : list (str * node)) (c : cfg) : bool := dyn_plain (NSub false [] fs) (VCfg c).
+
   Definition known_F36 (fs : list (str * node)) (c : cfg) : bool := has_disabled (NSub false [] fs) (VCfg c).
 End RT.
 
